@@ -41,6 +41,11 @@ CHECKS = {
          "Every program of the C01 sets is serialised with Bytecode::new at budgets that force memory traffic and executed by an interpreter written only from the format documentation (opcode numbers by name from iter_ops); outputs must equal the VM's bit-for-bit and every structural promise (markers, word count, register/memory bounds, reserved register) is checked on every bytecode.",
          "Trusted: the documentation-only interpreter and ref32; the WGSL consumer is not executed.",
          "DESIGN.md §4 C15"),
+ "C16": ("model_checking",
+         "exhaustive enumeration of a parameter grid per library shape/transform x sample-point grid, vs. closed-form f64 geometry; all transform sequences up to length 3",
+         "Each of the 26 shapes and transforms is instantiated over a full Cartesian grid of its parameters (centres, radii, offsets, angles, named and general axes and planes, negative and non-uniform scales), imported and evaluated at a 125-point asymmetric grid; primitives and CSG are compared by sign with closed-form geometry away from the boundary, transforms via T(s)(p) = s(T^-1 p) on an asymmetric probe to 1e-4; every sequence of up to three transforms from an 8-step alphabet is compared with the composed reference.",
+         "Trusted: my reading of the doc comments (listed in the evidence assumptions) and the f64 reference geometry.",
+         "DESIGN.md §4 C16"),
  "C20": ("model_checking",
          "bounded-exhaustive enumeration of choice programs x points x boxes on VM and JIT tracing evaluators, vs. a reference interpreter over the register tape",
          "Every DAG of min/max/and/or clauses up to the node bound and chains of up to 200 clauses are evaluated by the VM (two budgets) and JIT point evaluators at every point of a special-value grid and by both interval evaluators on every box of an endpoint grid; each trace must have one Left/Right/Both entry per clause equal to what the operand values (from a reference interpreter over the emitted tape) or the evaluator's own operand intervals (exported as outputs) imply, be absent only if all clauses are undecided, and agree between VM and JIT; output-array shapes and function-vs-tape metadata are checked on every program.",
